@@ -23,6 +23,7 @@ def universes(tier):
             if tier == "quick" and bs == 2:
                 us.pop()
     us.append(("hand+special single rows t=0.5", special, {"threshold": 0.5}, 1))
+    us.append(("atomic H/O reagents", pf.dedupe(pf.PLACEHOLDERS), {}, 5))
     return us
 
 
